@@ -95,7 +95,8 @@ Step0(st, e) ==
            ELSE s1
         ELSE LET s1 == [st EXCEPT !.got = Put(@, E, Append(SeqOf(st.got, E), e.tok)),
                                    !.cbFailed = IF e.flag THEN @ \cup {E} ELSE @] IN
-             IF ~DeliverOK(st, E, e.tok) THEN Flag(s1, "C10.callback-item-duplicated-lost-or-reordered")
+             IF E \in st.cbFailed /\ ~e.flag THEN Flag(s1, "C07.callback-invoked-again-after-it-had-raised")
+             ELSE IF ~DeliverOK(st, E, e.tok) THEN Flag(s1, "C10.callback-item-duplicated-lost-or-reordered")
              ELSE IF Nat0(st.endCount, E) > 0 THEN Flag(s1, "C10.item-after-endmarker")
              ELSE s1
     [] e.ev = "call" ->
